@@ -189,7 +189,7 @@ def _sink_script(n: int, ops: tuple) -> bool:
     return True
 
 
-@cond(q=60, t=300, encoded=ENCODED, bound="op scripts of length <= %d over {log, open writer, close writer+reset, process turn}" % _NA,
+@cond(q=100, t=300, encoded=ENCODED, bound="op scripts of length <= %d over {log, open writer, close writer+reset, process turn}" % _NA,
       stubs=["ipc writer := recording list shared by the successive writers of a call"])
 def sink_script(n: int, o0: int, o1: int, o2: int, o3: int, o4: int) -> bool:
     """
@@ -461,7 +461,7 @@ def _replay_bytes(args: dict) -> str | None:
     return _real_verdict(dict(_bytes_pairs(args["exc"], args["which"], args["raw"], args["others"])))
 
 
-@cond(q=60, t=180, encoded=[wire._dispatch_log_or_error], stubs=[_JSON_STUB + " (here: {} or JSONDecodeError)", _MD_STUB], replay=_replay_bytes,
+@cond(q=100, t=180, encoded=[wire._dispatch_log_or_error], stubs=[_JSON_STUB + " (here: {} or JSONDecodeError)", _MD_STUB], replay=_replay_bytes,
       signature=lambda a, c: "C08:peer-bytes:not-utf8",
       bound="one of level / message / server_id / request_id / log_extra carries ANY bytes of length <= %d, the other values are well-formed (present or absent); level EXCEPTION or INFO" % pick(2, 3))
 def peer_undecodable_bytes(exc: bool, which: int, raw: bytes, others: bool, extra_is_json: bool) -> bool:
